@@ -3,9 +3,9 @@
     [scalar_from_bytes] maps [sfb] and all codecs with fixed-length injective encodings ([CodecLaws]).
     NOT theorems (see design/C07.md): knowledge soundness, zero knowledge, collision resistance. *)
 From Coq Require Import ZArith NArith List String Bool.
-From CB Require Import Crypto.Alg Crypto.Transcript Crypto.TranscriptProofs Crypto.SigmaGeneric Crypto.SigmaCodec
+From CB Require Import Crypto.Alg Crypto.AlgPairing Crypto.Transcript Crypto.TranscriptProofs Crypto.SigmaGeneric Crypto.SigmaCodec
   Crypto.Sigma_dlog Crypto.Sigma_dlogeq Crypto.Sigma_com_eq Crypto.Sigma_com_enc_eq Crypto.Sigma_com_mult
-  Crypto.Sigma_aggregate_dlog Crypto.Sigma_enc_trans Crypto.Sigma_com_lin Crypto.Sigma_com_eq_diff Crypto.Sigma_com_ineq
+  Crypto.Sigma_aggregate_dlog Crypto.Sigma_enc_trans Crypto.Sigma_com_lin Crypto.Sigma_com_eq_diff Crypto.Sigma_com_ineq Crypto.Sigma_vcom_eq Crypto.Sigma_com_eq_sig Crypto.Sigma_dlogaggequal
   Crypto.SigmaExec.
 Import ListNotations.
 
@@ -273,6 +273,32 @@ Section Instances.
   Theorem com_ineq_context_covers_statement : forall g h c v g' h' c' v' x y,
     com_ineq_ctx Cd g h c v ++ x = com_ineq_ctx Cd g' h' c' v' ++ y -> g = g' /\ h = h' /\ c = c' /\ v = v' /\ x = y.
   Proof. exact (com_ineq_ctx_injective_ Cd). Qed.
+  (** dlogaggequal.rs (private, unused reference module; model only): the number of inner response
+      vectors is not compared with the number of aggregates *)
+  Theorem dlogaggequal_response_count_unchecked_refuted : forall (d : dlog_stmt M) (a : agg_stmt M) (c zc : K),
+    exists cm, dae_extract (d, [a]) c (zc, []) = Some (cm, []).
+  Proof. exact dlogaggequal_response_count_unchecked_refuted_. Qed.
+
+  (** vcom_eq (model of the code after the repair 82fae784a) *)
+  Theorem vcom_eq_complete : complete (vcom_proto Cd) (vcom_rel (M:=M)) vcom_rok.
+  Proof. exact (vcom_complete_ Cd). Qed.
+  Theorem vcom_eq_checks_every_commitment : forall (s : vcom_stmt M) c sis t tis a pts,
+    vcom_extract s c (sis, t, tis) = Some (a, pts) ->
+    List.length pts = List.length (vc_comms s) /\ List.length sis = List.length (vc_gis s) /\
+    List.length tis = List.length (vc_comms s).
+  Proof. exact vcom_extract_checks_every_commitment_. Qed.
+  (** the code before the repair accepted a response keyed {1} for comms keyed {0} without ever
+      looking at the commitment C_0 (fixed: known_findings.json "fixed", replayed by the check) *)
+  Theorem vcom_eq_prefix_unchecked_commitment_refuted : forall (g h gb hb C C0 C0' : M) (c s0 s1 t t1 : K),
+    let st X := mkVcom C [(0%N, X)] [g; g] h gb hb in
+    vcom_extract_prefix (st C0) c ([s0; s1], t, [(1%N, t1)]) = vcom_extract_prefix (st C0') c ([s0; s1], t, [(1%N, t1)])
+    /\ exists a, vcom_extract_prefix (st C0) c ([s0; s1], t, [(1%N, t1)]) = Some (a, [])
+    /\ vcom_extract (st C0) c ([s0; s1], t, [(1%N, t1)]) = None.
+  Proof. exact vcom_prefix_unchecked_commitment_refuted_. Qed.
+  Theorem vcom_eq_public_covers_statement_v1 :
+    public_prefix_free (vcom_proto Cd) V1
+      (fun s => (N.of_nat (List.length (vc_gis s)) < W64)%N /\ (N.of_nat (List.length (vc_comms s)) < W64)%N).
+  Proof. exact (vcom_public_prefix_free_v1_ Cd). Qed.
 End Instances.
 Print Assumptions dlog_complete.
 Print Assumptions dlog_special_sound.
@@ -310,6 +336,36 @@ Print Assumptions com_lin_public_covers_statement_fixed_size.
 Print Assumptions com_ineq_complete.
 Print Assumptions com_ineq_extracted_witness.
 Print Assumptions com_ineq_context_covers_statement.
+
+Print Assumptions dlogaggequal_response_count_unchecked_refuted.
+Print Assumptions vcom_eq_complete.
+Print Assumptions vcom_eq_checks_every_commitment.
+Print Assumptions vcom_eq_prefix_unchecked_commitment_refuted.
+Print Assumptions vcom_eq_public_covers_statement_v1.
+
+(** com_eq_sig: pairing groups (AlgPairing.v), commitments in a fourth module *)
+Section Pairing.
+  Context (K : FieldOps) (KL : FieldLaws K) (P : PairOps K) (PL : PairLaws P) (MC : ModOps K) (MLC : ModLaws MC)
+          (Cd1 : CodecOps (PM1 P)) (Cd2 : CodecOps (PM2 P)) (CdT : CodecOps (PMT P)) (CdC : CodecOps MC)
+          (CL1 : CodecLaws Cd1) (CL2 : CodecLaws Cd2) (CLC : CodecLaws CdC).
+  Theorem com_eq_sig_complete : complete (ces_proto Cd1 Cd2 CdT CdC) ces_rel ces_rok.
+  Proof. exact (ces_complete_ Cd1 Cd2 CdT CdC). Qed.
+  Theorem com_eq_sig_special_sound : special_sound (ces_proto Cd1 Cd2 CdT CdC)
+    (fun s w => (List.length (cs_cmts s) <= List.length (cs_ys s))%nat -> ces_rel s w) ces_extractor.
+  Proof. exact (ces_special_sound_ Cd1 Cd2 CdT CdC). Qed.
+  Theorem com_eq_sig_rejects_wrong_length : forall (s : ces_stmt P MC) c zr zs a,
+    ces_extract s c (zr, zs) = Some a -> List.length zs = List.length (cs_cmts s).
+  Proof. exact ces_extract_length_. Qed.
+  Theorem com_eq_sig_public_covers_statement_v1 :
+    public_prefix_free (ces_proto Cd1 Cd2 CdT CdC) V1
+      (fun s => (N.of_nat (List.length (cs_cmts s)) < W64)%N /\ (N.of_nat (List.length (cs_ys s)) < W32)%N /\
+                (N.of_nat (List.length (cs_yts s)) < W32)%N).
+  Proof. exact (ces_public_prefix_free_v1_ Cd1 Cd2 CdT CdC). Qed.
+End Pairing.
+Print Assumptions com_eq_sig_complete.
+Print Assumptions com_eq_sig_special_sound.
+Print Assumptions com_eq_sig_rejects_wrong_length.
+Print Assumptions com_eq_sig_public_covers_statement_v1.
 
 (** com_eq_different_groups: two modules over one field *)
 Section TwoGroups.
